@@ -93,6 +93,12 @@ func (w *world) checkFreshRender(name string) {
 	if w.invalidClass(&pkg) != "" {
 		return
 	}
+	if im := w.reg.images[pkg.Spec.Image]; im != nil && im.Spec.Constraint == "unique" && len(w.pkgs) > 1 {
+		// uniqueness is judged against the sibling packages as they were when this spec was deployed; siblings edited later do
+		// not re-trigger an unchanged package, so the state at rest says nothing about that decision
+		w.e.Count("c16_fresh_render_skipped_unique_with_siblings")
+		return
+	}
 	ctx := context.Background()
 	raw := &packages.RawPackage{Files: w.reg.images[pkg.Spec.Image].Spec.Files()}
 	loaded, err := packages.DefaultStructuralLoader.LoadComponent(ctx, raw, pkg.Spec.Component)
@@ -151,7 +157,7 @@ func (w *world) checkFreshRender(name string) {
 				}
 			}
 		}
-		w.e.Report(sig, fmt.Sprintf("Package ns/%s image=%s config=%s\n want %s\n got  %s", name, pkg.Spec.Image, rawString(pkg.Spec.Config), firstN(string(wb), 1500), firstN(string(gb), 1500)))
+		w.e.Report(sig, fmt.Sprintf("Package ns/%s image=%s config=%s component=%q conditions=%+v constraint=%q\n want %s\n got  %s", name, pkg.Spec.Image, rawString(pkg.Spec.Config), pkg.Spec.Component, pkg.Status.Conditions, w.reg.images[pkg.Spec.Image].Spec.Constraint, firstN(string(wb), 1500), firstN(string(gb), 1500)))
 	}
 }
 
